@@ -157,6 +157,22 @@ func init() {
 		}
 		return nil
 	})
+	reg(zz+"WaitUntil", func(w *Worker, fr *frame, a []Value, fn *ssa.Function) Value {
+		// let every other goroutine run until all are blocked, then the condition must hold
+		w.yield()
+		r := w.callValue(fr, a[0], nil, nil).(*Term)
+		if r.IsTrue() {
+			return nil
+		}
+		if r.IsFalse() || !w.branch(r) {
+			panic(pathAbort{abError, "zzverif.WaitUntil: condition does not hold after all goroutines quiesced: " + w.argStr(a[1]) + w.where()})
+		}
+		return nil
+	})
+	reg(zz+"Yield", func(w *Worker, fr *frame, a []Value, fn *ssa.Function) Value {
+		w.yield()
+		return nil
+	})
 	reg(zz+"Unwind", func(w *Worker, fr *frame, a []Value, fn *ssa.Function) Value {
 		w.unwind = w.argInt(a[0])
 		return nil
